@@ -106,23 +106,28 @@ func runC05(c *Ctx) {
 	}
 	// roles: mask extractor / regex extractor = callees of loadShortcut func(string) string
 	var extractors []*ssa.Function
-	eachInstr(ls, func(_ *ssa.BasicBlock, in ssa.Instruction) {
-		if ci, ok := in.(ssa.CallInstruction); ok {
-			if cal := ci.Common().StaticCallee(); cal != nil && c.P.IsLibFunc(cal) && cal.Signature.Recv() == nil && cal.Signature.Params().Len() == 1 && typeStr(cal.Signature.Results().At(0).Type()) == "string" {
-				extractors = append(extractors, cal)
-			}
-		}
-	})
-	var maskX, regexX *ssa.Function
-	for _, x := range extractors {
-		usesRegexp := false
-		eachInstr(x, func(_ *ssa.BasicBlock, in ssa.Instruction) {
+	for _, gf := range groupFuncs(c.P, ls) {
+		eachInstr(gf, func(_ *ssa.BasicBlock, in ssa.Instruction) {
 			if ci, ok := in.(ssa.CallInstruction); ok {
-				if cal := ci.Common().StaticCallee(); cal != nil && strings.Contains(calleeName(cal), "regexp.Regexp") {
-					usesRegexp = true
+				if cal := ci.Common().StaticCallee(); cal != nil && c.P.IsLibFunc(cal) && !c.P.IsNewHelper(cal) && cal.Signature.Recv() == nil && cal.Signature.Params().Len() == 1 && cal.Signature.Results().Len() == 1 &&
+					typeStr(cal.Signature.Params().At(0).Type()) == "string" && typeStr(cal.Signature.Results().At(0).Type()) == "string" {
+					extractors = append(extractors, cal)
 				}
 			}
 		})
+	}
+	var maskX, regexX *ssa.Function
+	for _, x := range extractors {
+		usesRegexp := false
+		for _, xf := range groupFuncs(c.P, x) {
+			eachInstr(xf, func(_ *ssa.BasicBlock, in ssa.Instruction) {
+				if ci, ok := in.(ssa.CallInstruction); ok {
+					if cal := ci.Common().StaticCallee(); cal != nil && strings.Contains(calleeName(cal), "regexp.Regexp") {
+						usesRegexp = true
+					}
+				}
+			})
+		}
 		if usesRegexp {
 			regexX = x
 		} else {
